@@ -85,4 +85,8 @@ def DSys.init : DSys :=
 
 def drun (t : Ty) (y : DSys) (steps : List DStep) : DSys := steps.foldl (dstep t) y
 
+/-- The fold of the changes carried by a list of requests. -/
+def foldMsgs (l : List String) (ms : List DMsg) : List String :=
+  ms.foldl (fun l m => applyChange l m.sub m.unsub) l
+
 end IstioModel.C04
